@@ -361,6 +361,16 @@ func main() {
 		}
 	}
 
+	// (0) a cold router: the first requests this process ever routes name no valid repository at all.
+	// What the routing layer accepts is a function of the request, not of what was routed before.
+	for _, s := range []string{"", "/", "A", "a//b", "-", "a/", ".", "_a"} {
+		vh, vr, vt, vd := c.predicates(s)
+		_ = vh
+		c.seg, c.encoded = s, false
+		c.router(s, vr, vt, vd)
+		run.Count("cold_router_probes", 1)
+	}
+
 	// (a) exhaustive short strings
 	alpha := []byte("a0A._-/:@[]% \x00\nfz1+=")
 	var short []string
